@@ -360,6 +360,7 @@ RULE = (
     "intervals within 0.5 of (hi-lo)/step0) and own binary-search linear interpolation, plus own trapezoid for the estimator path. "
     "Non-trivial = the coarsest step does not divide the overlap, or a non-uniform/unsorted domain, or >=3 inputs (equalize); "
     "interpolation actually happened (capture/stack)."
+    " Scalar axes span -ndim..ndim-1 (including 0); a sixth of the overlap cases use int64 wavelength grids with non-dividing overlaps."
 )
 
 PROP = Prop(
